@@ -481,6 +481,9 @@ class StokesLandscape(Landscape):
 
     def get_coverage(self, arg: Sampling) -> Integer[Array, ' 12*nside**2']:
         indices = self.world2index(arg.theta, arg.phi)
+        # the position angles can broadcast the pointing further (detectors sharing a direction):
+        # every sample counts, so that the coverage sums to len(arg)
+        indices = jnp.broadcast_to(indices, np.broadcast_shapes(indices.shape, jnp.shape(arg.pa)))
         unique_indices, counts = jnp.unique(indices, return_counts=True)
         coverage = jnp.zeros(len(self), dtype=np.int64)
         coverage = coverage.at[unique_indices].add(
